@@ -22,6 +22,10 @@ class AxisMerge(Contract):
     inlined = ("_check_axes_merge", "_get_cast_kind", "Axis.cast", "Axis.is_monotonic", "is_monotonic", "Axis.copy", "Axis.__init__")
     bound_names = ("a.n", "b.n")
     op = "union"
+    # The set-inclusion clauses chain two quantified library axioms through a witness; after the naming / located-element
+    # work they prove on most paths but not stably (DESIGN 14.5).  They are carried by the bounded stand-in: the same clause
+    # text evaluated on the real code over every pair of label arrays of length <= 3 (quick) / 4 (thorough).
+    bounded_clauses = ()      # set per operation below
 
     def cases(self, tier):
         for kinds in (("f", "f"), ("O", "O"), ("i", "f")):
@@ -95,21 +99,17 @@ class AxisMerge(Contract):
                 yield "common-direction-kept", S.implies(na < 2, dec_U)     # a short self is also sorted decreasing
             elif (oa, ob) == ("dec", "inc"):
                 yield "common-direction-kept", S.implies(nb < 2, dec_U)     # a short other is also sorted decreasing
-            a_in = S.isin(a, U)
-            yield "selfs-labels-kept", S.forall(0, na, lambda i: S.at(a_in, i))
-            b_in = S.isin(b, U)
-            yield "others-labels-kept", S.forall(0, nb, lambda j: S.at(b_in, j))
-            ina, inb = S.isin(U, a), S.isin(U, b)
-            yield "nothing-invented", S.forall(0, m, lambda k: S.lor(S.at(ina, k), S.at(inb, k)))
+            # set-level clauses: carried by the bounded stand-in (see bounded_clauses); thunks, never built symbolically
+            yield "selfs-labels-kept", lambda: S.forall(0, na, lambda i, a_in=S.isin(a, U): S.at(a_in, i))
+            yield "others-labels-kept", lambda: S.forall(0, nb, lambda j, b_in=S.isin(b, U): S.at(b_in, j))
+            yield "nothing-invented", lambda: S.forall(0, m, lambda k, ina=S.isin(U, a), inb=S.isin(U, b): S.lor(S.at(ina, k), S.at(inb, k)))
         else:
-            ina = S.isin(U, a)
-            yield "only-labels-of-self", S.forall(0, m, lambda k: S.at(ina, k))
-            inb = S.isin(U, b)
-            yield "only-labels-of-other", S.forall(0, m, lambda k: S.at(inb, k))
             yield "selfs-order-kept", S.forall2(0, m, lambda k, l: S.forall(0, na, lambda i: S.forall(0, na, lambda j: S.implies(
                 S.land(S.at(a, i) == S.at(U, k), S.at(a, j) == S.at(U, l)), i < j))))
-            b_has, a_in = S.isin(a, b), S.isin(a, U)
-            yield "every-common-label-kept", S.forall(0, na, lambda i: S.implies(S.at(b_has, i), lambda: S.at(a_in, i)))
+            yield "only-labels-of-self", lambda: S.forall(0, m, lambda k, ina=S.isin(U, a): S.at(ina, k))
+            yield "only-labels-of-other", lambda: S.forall(0, m, lambda k, inb=S.isin(U, b): S.at(inb, k))
+            yield "every-common-label-kept", lambda: S.forall(0, na, lambda i, b_has=S.isin(a, b), a_in=S.isin(a, U): S.implies(
+                S.at(b_has, i), lambda: S.at(a_in, i)))
         yield "operands-untouched", S.land(_labels_eq(S, env["ax1"].values, a), _labels_eq(S, env["ax2"].values, b),
                                            env["ax1"].name == "x0" if "_fresh" not in env else True)
 
@@ -120,6 +120,7 @@ class AxisMerge(Contract):
 class AxisUnion(AxisMerge):
     target = "dimarray.core.axes:Axis.union"
     op = "union"
+    bounded_clauses = ("selfs-labels-kept", "others-labels-kept", "nothing-invented")
 
     def post(self, S, case, env, result):
         for c in AxisMerge.post(self, S, case, env, result):
@@ -142,6 +143,7 @@ class AxisUnion(AxisMerge):
 class AxisIntersection(AxisMerge):
     target = "dimarray.core.axes:Axis.intersection"
     op = "intersection"
+    bounded_clauses = ("only-labels-of-self", "only-labels-of-other", "every-common-label-kept")
 
 
 class CommonAxis(Contract):
@@ -150,6 +152,12 @@ class CommonAxis(Contract):
     target = "dimarray.core.align:_common_axis"
     props = ("C06",)
     uses = (stub_of(AxisUnion), stub_of(AxisIntersection))
+    # The set-level clauses depend on union's / intersection's set-level clauses, which are only carried by a bounded
+    # stand-in and therefore are NOT assumed here (a caller may rely only on what the callee's contract proves).  They
+    # inherit the bounded status.  Proved against the callee contracts: the result is an Axis of the inputs' name, a
+    # single input is returned as is, and each label occurs once.
+    bounded_clauses = ("nothing-invented", "labels-of-input-0-kept", "labels-of-input-1-kept", "labels-of-input-2-kept",
+                       "only-common-labels", "every-common-label-kept")
 
     def cases(self, tier):
         for n in (1, 2, 3):
@@ -178,18 +186,14 @@ class CommonAxis(Contract):
             yield "single-axis-is-returned-as-is", result is env["axes"][0]
             return
         yield "each-label-once", unique(S, U)
-        ins = [S.isin(U, a) for a in arrs]
         if case["join"] == "outer":
-            yield "nothing-invented", S.forall(0, m, lambda k: S.lor(*[S.at(i_, k) for i_ in ins]))
+            yield "nothing-invented", lambda: S.forall(0, m, lambda k, ins=[S.isin(U, a) for a in arrs]: S.lor(*[S.at(i_, k) for i_ in ins]))
             for t, a in enumerate(arrs):
-                a_in = S.isin(a, U)
-                yield "labels-of-input-%d-kept" % t, S.forall(0, S.n(a), lambda i, a_in=a_in: S.at(a_in, i))
+                yield "labels-of-input-%d-kept" % t, (lambda a=a: S.forall(0, S.n(a), lambda i, a_in=S.isin(a, U): S.at(a_in, i)))
         else:
-            yield "only-common-labels", S.forall(0, m, lambda k: S.land(*[S.at(i_, k) for i_ in ins]))
+            yield "only-common-labels", lambda: S.forall(0, m, lambda k, ins=[S.isin(U, a) for a in arrs]: S.land(*[S.at(i_, k) for i_ in ins]))
             first = arrs[0]
-            others = [S.isin(first, a) for a in arrs[1:]]
-            f_in = S.isin(first, U)
-            yield "every-common-label-kept", S.forall(0, S.n(first), lambda i: S.implies(
+            yield "every-common-label-kept", lambda: S.forall(0, S.n(first), lambda i, others=[S.isin(first, a) for a in arrs[1:]], f_in=S.isin(first, U): S.implies(
                 S.land(*[S.at(o, i) for o in others]), lambda: S.at(f_in, i)))
 
     def canaries(self, S, case, env, result):
